@@ -2,11 +2,13 @@
 EXTENDS C11_TEBD
 OrdersAll == {1, 2, 4}
 DtsQ  == {2, 3}
-DtsT  == {1, 2, 3, 4}
+DtsT  == {1, 2, 3}
+DtsS  == {1, 2, 3, 4}
 DtsP  == {2, 4}
 TargQ == {0, 3, 4, 7}
 TargB == {0, 3, 4, 7, 8}
-TargT == {0, 1, 3, 4, 6, 7, 8, 11, 12}
+TargT == {0, 1, 3, 4, 7, 8, 11}
+TargU == {0, 3, 4}
 TargS == {0, 1, 2, 3, 4, 5, 6, 7, 8, 10, 12}
 LsAll == {2, 3, 4, 5, 6}
 \* constant-level statements about chains, checked once by TLC
